@@ -145,7 +145,7 @@ var quiesceDelay = 300 * time.Millisecond
 
 func Crashed() bool        { return false }
 func LeftoverLib() int     { return nativeLeftover() }
-func LeftoverDesc() string { return "" }
+func LeftoverDesc() string { return nativeLeftoverDesc() }
 func Daemon()              {}
 
 // Run executes a harness natively and reports assertion failures.
